@@ -134,6 +134,17 @@ func (in *inst) rewriteExpr(e ast.Expr) ast.Expr {
 			}
 		}
 	case *ast.CallExpr:
+		// len(ch) / cap(ch) of a channel observe shared state: a visible operation
+		if id, ok := x.Fun.(*ast.Ident); ok && (id.Name == "len" || id.Name == "cap") && len(x.Args) == 1 {
+			if _, isBuiltin := in.info.Uses[id].(*types.Builtin); isBuiltin {
+				if t := in.typeOf(x.Args[0]); t != nil {
+					if _, isChan := t.Underlying().(*types.Chan); isChan {
+						x.Args[0] = call(rt("YP"), in.site(x, "chan."+id.Name), x.Args[0])
+						return x
+					}
+				}
+			}
+		}
 		if pkg, name := in.pkgFunc(x); pkg != "" {
 			switch {
 			case pkg == "sync/atomic" && len(x.Args) > 0:
